@@ -25,9 +25,13 @@ type Result struct {
 	N        int    // write
 	Stat     ref9p.Stat
 	Qid      ref9p.Qid // open
+	Conn     string    // only in the additional last entry of a run with an oversize reply: what became of the connection
 }
 
 func (r Result) String() string {
+	if r.Conn != "" {
+		return "[not a call: after the round the connection was " + r.Conn + "]"
+	}
 	if r.IsErr {
 		return fmt.Sprintf("error %q (%d)", r.ErrText, r.ErrNum)
 	}
@@ -36,7 +40,7 @@ func (r Result) String() string {
 
 func sameResult(a, b Result) bool {
 	return a.Returned == b.Returned && a.IsErr == b.IsErr && a.ErrText == b.ErrText && a.ErrNum == b.ErrNum &&
-		bytes.Equal(a.Data, b.Data) && a.N == b.N && a.Stat == b.Stat && a.Qid == b.Qid
+		bytes.Equal(a.Data, b.Data) && a.N == b.N && a.Stat == b.Stat && a.Qid == b.Qid && a.Conn == b.Conn
 }
 
 func diffResults(ref, got []Result) string {
@@ -192,6 +196,9 @@ func clientLayout(c *Case) (*clayout, error) {
 					n = len(bad)
 					l.malfRound, l.malfPos = ri, pos
 					l.malfWhy = fmt.Sprintf("reply %d of the stream (%s to call %d, %d bytes) is malformed: %s (strict decoding: %v)", len(l.bounds), ref9p.TypeName(bad[4]), cs[o].id, n, what, derr)
+					if c.CMalf.Mut == "oversize" {
+						l.malfWhy = fmt.Sprintf("reply %d of the stream (%s to call %d, %d bytes) is illegal by its size: %s", len(l.bounds), ref9p.TypeName(bad[4]), cs[o].id, n, what)
+					}
 				}
 			}
 			l.total += n
@@ -201,8 +208,26 @@ func clientLayout(c *Case) (*clayout, error) {
 	return l, nil
 }
 
-// malformedReply is the malformed frame made from the call's well-formed reply.
+// overMax is the largest announced size of an oversize reply: a little more
+// than the client's receive buffer (8 x msize) can hold.
+func overMax(msize uint32) int { return int(8*msize) + 64 }
+
+// malformedReply is the malformed frame made from the call's well-formed reply
+// (mutation oversize: the illegal frame, a well-formed Rread of CMalf.At bytes).
 func malformedReply(c *Case, cc *ccall, tag uint16) ([]byte, string, error) {
+	if c.CMalf.Mut == "oversize" {
+		sz := c.CMalf.At
+		if cc.spec.Kind != "read" || cc.spec.Err || sz <= int(c.Msize) || sz > overMax(c.Msize) {
+			return nil, "", fmt.Errorf("harness: oversize reply of %d bytes to a %s call, msize %d", sz, cc.spec.Kind, c.Msize)
+		}
+		m := ref9p.Msg{Type: ref9p.Rread, Tag: tag, Data: prf(c.Seed, "ov", cc.id, sz-11)}
+		big := ref9p.Encode(&m, c.Dotu)
+		if _, _, derr := ref9p.Decode(big, c.Dotu); derr != nil || len(big) != sz {
+			return nil, "", fmt.Errorf("harness: the oversize Rread has %d bytes instead of %d, or does not decode (%v)", len(big), sz, derr)
+		}
+		return big, fmt.Sprintf("it is an Rread with %d data bytes, well-formed in itself, whose size %d exceeds the connection's msize %d (%s the 8 x msize = %d bytes of the client's receive buffer)",
+			sz-11, sz, c.Msize, map[bool]string{true: "within", false: "beyond"}[sz <= int(8*c.Msize)], 8*c.Msize), nil
+	}
 	m := *cc.reply
 	m.Tag = tag
 	bad, what, err := mutate(c.CMalf.Mut, c.CMalf.At, c.CMalf.By, ref9p.Encode(&m, c.Dotu), c.Dotu)
@@ -273,6 +298,7 @@ func runClient(c *Case, l *clayout, cuts []int) ([]Result, error) {
 		return nil, fmt.Errorf("Connect: dialect %v msize %d, want %v %d", clnt.Dotu, clnt.Msize, c.Dotu, c.Msize)
 	}
 	results := make([]Result, len(l.all))
+	oversize, connState := c.CMalf != nil && c.CMalf.Mut == "oversize", ""
 	kept := make([][]byte, len(l.all)) // the slices Read returned, not copies
 	var mu sync.Mutex
 	var returned int64
@@ -435,6 +461,19 @@ func runClient(c *Case, l *clayout, cuts []int) ([]Result, error) {
 			mu.Lock()
 			got := results[cc.id]
 			mu.Unlock()
+			if cc.dead && oversize {
+				// illegal by size only: what the statement demands is that the
+				// outcome does not depend on the segmentation (compared with the
+				// reference delivery by the caller). Here: a call that did not fail
+				// got the reply to its own request.
+				if !got.Returned {
+					return nil, fmt.Errorf("call %d (round %d, %s fid %d) never returned", cc.id, ri, cc.spec.Kind, cc.fid)
+				}
+				if !got.IsErr && cc != round[l.order[ri][l.malfPos]] && !sameResult(got, cc.want) {
+					return nil, fmt.Errorf("call %d (round %d, %s fid %d) returned %v, the reply to its own request says %v", cc.id, ri, cc.spec.Kind, cc.fid, got, cc.want)
+				}
+				continue
+			}
 			if cc.dead {
 				if !got.Returned || !got.IsErr {
 					return nil, fmt.Errorf("call %d (round %d, %s fid %d) returned %v although its reply is, or lies behind, the malformed reply: %s", cc.id, ri, cc.spec.Kind, cc.fid, got, l.malfWhy)
@@ -445,18 +484,29 @@ func runClient(c *Case, l *clayout, cuts []int) ([]Result, error) {
 				return nil, fmt.Errorf("call %d (round %d, %s fid %d) returned %v, the reply to its own request says %v", cc.id, ri, cc.spec.Kind, cc.fid, got, cc.want)
 			}
 		}
-		if ri == l.malfRound && !p.End.PeerClosed() {
+		if ri == l.malfRound && oversize {
+			connState = "still open"
+			if p.End.PeerClosed() {
+				connState = "dropped by the client"
+			}
+		} else if ri == l.malfRound && !p.End.PeerClosed() {
 			return nil, fmt.Errorf("the client did not drop the connection although %s", l.malfWhy)
 		}
 	}
 	// data returned by earlier reads must not have been disturbed by later replies
 	for _, cc := range l.all {
+		if oversize && cc == l.rounds[l.malfRound][l.order[l.malfRound][l.malfPos]] {
+			continue // (no later reply can have disturbed it, and what it should hold is not predicted)
+		}
 		if kept[cc.id] != nil && !bytes.Equal(kept[cc.id], cc.want.Data) {
 			return nil, fmt.Errorf("call %d (read fid %d): the slice Read returned was overwritten by replies that arrived later: now %x, was %x", cc.id, cc.fid, clip(kept[cc.id]), clip(cc.want.Data))
 		}
 	}
 	if out, _ := clnt.VerifCounts(); out != 0 {
 		return nil, fmt.Errorf("%d requests still outstanding after every call returned", out)
+	}
+	if oversize {
+		results = append(results, Result{Returned: true, Conn: connState})
 	}
 	return results, nil
 }
